@@ -200,3 +200,145 @@ pub fn plain_opts(sh: &Shader) -> Option<crate::sut::Opts> {
     }
     Some(crate::sut::Opts { encase_host: needs_encase, ..Default::default() })
 }
+
+// ---------------------------------------------------------------------------------------------
+// What the selected options mean for each emitted struct (C09 role table) and which compile
+// outcomes / panics are predicted (C01, C05).
+
+use crate::layout::{rust_struct_layout, wgsl_struct_layout, Repr};
+use crate::sut::Opts;
+
+#[derive(Clone, Debug, PartialEq, Eq)]
+pub struct StructRole {
+    pub index: usize,
+    pub host: bool,
+    pub rt: bool,
+    pub pod: bool,
+    pub shader_type: bool,
+    pub serde: bool,
+    pub asserts: bool,
+}
+
+pub fn struct_roles(sh: &Shader, o: &Opts) -> Vec<StructRole> {
+    let host = host_shareable(sh);
+    emitted_structs(sh)
+        .into_iter()
+        .map(|i| {
+            let h = host.contains(&i);
+            StructRole {
+                index: i,
+                host: h,
+                rt: ends_in_rt_array(&sh.structs[i]),
+                pod: (h && o.bytemuck_host) || (!h && o.bytemuck_vertex),
+                shader_type: h && o.encase_host,
+                serde: o.serde,
+                asserts: h && o.bytemuck_host,
+            }
+        })
+        .collect()
+}
+
+/// The documented panics: a runtime-sized array field without encase, or with bytemuck on that struct.
+pub fn predicted_panic(sh: &Shader, o: &Opts) -> Option<&'static str> {
+    for r in struct_roles(sh, o) {
+        if r.rt && !o.encase_host {
+            return Some("Runtime-sized array fields are only supported with encase");
+        }
+        if r.rt && r.pod {
+            return Some("Runtime-sized array fields are not supported with bytemuck");
+        }
+    }
+    None
+}
+
+#[derive(Clone, Debug, PartialEq, Eq)]
+pub enum CompileOutcome {
+    Compiles,
+    /// bytemuck's derive(Pod) rejects a type with padding
+    PodPadding,
+    /// a generated layout assertion fails (Rust layout != WGSL layout)
+    AssertMismatch,
+    /// no possible output could compile: the external crate has no such impl (domain exclusion)
+    Unsupported(&'static str),
+}
+
+fn emitted_member_tys<'a>(sd: &'a StructDef) -> impl Iterator<Item = &'a Member> {
+    sd.members.iter().filter(|m| !matches!(m.io, Io::Builtin(_)))
+}
+
+pub fn predict_struct(sh: &Shader, r: &StructRole, o: &Opts) -> CompileOutcome {
+    let sd = &sh.structs[r.index];
+    let has = |sc: Sc| emitted_member_tys(sd).any(|m| m.ty.has_scalar(sc, &sh.structs));
+    if r.shader_type && (has(Sc::F64) || has(Sc::Bool)) {
+        return CompileOutcome::Unsupported("encase 0.10 has no f64/bool");
+    }
+    if r.pod && has(Sc::Bool) {
+        return CompileOutcome::Unsupported("bool is not Pod");
+    }
+    if r.serde && emitted_member_tys(sd).any(|m| m.ty.max_array_len(&sh.structs) > 32) {
+        return CompileOutcome::Unsupported("serde implements arrays up to 32");
+    }
+    if r.pod {
+        let rl = rust_struct_layout(sd, &sh.structs, o.repr);
+        if rl.has_padding {
+            return CompileOutcome::PodPadding;
+        }
+    }
+    if r.asserts {
+        let rl = rust_struct_layout(sd, &sh.structs, o.repr);
+        let wl = wgsl_struct_layout(sd, &sh.structs);
+        let woff: Vec<u32> = sd.members.iter().zip(wl.offsets.iter()).filter(|(m, _)| !matches!(m.io, Io::Builtin(_))).map(|(_, o)| *o).collect();
+        if rl.offsets != woff || rl.size != wl.size {
+            return CompileOutcome::AssertMismatch;
+        }
+    }
+    CompileOutcome::Compiles
+}
+
+pub fn predict_module(sh: &Shader, o: &Opts) -> Vec<(StructRole, CompileOutcome)> {
+    struct_roles(sh, o).into_iter().map(|r| {
+        let c = predict_struct(sh, &r, o);
+        (r, c)
+    }).collect()
+}
+
+pub fn repr_name(r: Repr) -> &'static str {
+    match r {
+        Repr::Rust => "rust",
+        Repr::Glam => "glam",
+        Repr::Nalgebra => "nalgebra",
+    }
+}
+
+/// Pick derive switches for which the model predicts a compiling module and no documented panic:
+/// start from `bits` and clear switches until the prediction is clean (bh, bv, se, then en when no
+/// runtime array needs it). None if even the minimal set cannot compile (counted as excluded).
+pub fn compiling_opts(sh: &Shader, bits: u32, repr: Repr) -> Option<Opts> {
+    let clean = |o: &Opts| predicted_panic(sh, o).is_none() && predict_module(sh, o).iter().all(|(_, c)| *c == CompileOutcome::Compiles);
+    let mut o = Opts::from_bits(bits, repr);
+    let needs_encase = emitted_structs(sh).iter().any(|i| ends_in_rt_array(&sh.structs[*i]));
+    if needs_encase {
+        o.encase_host = true;
+    }
+    for step in 0..5 {
+        if clean(&o) {
+            return Some(o);
+        }
+        match step {
+            0 => o.bytemuck_host = false,
+            1 => o.bytemuck_vertex = false,
+            2 => o.serde = false,
+            3 => {
+                if !needs_encase {
+                    o.encase_host = false
+                }
+            }
+            _ => {}
+        }
+    }
+    if clean(&o) {
+        Some(o)
+    } else {
+        None
+    }
+}
